@@ -12,6 +12,8 @@ INVARIANT DensitySampler
 INVARIANT DensityEstimator
 INVARIANT PAlgApproachesPosterior
 INVARIANT ChangeProper
+INVARIANT ChangeGrowMass
+INVARIANT ChangeParticle
 INVARIANT MarginalUnbiased
 INVARIANT MarginalExact
 INVARIANT MarginalGuardCoverage
